@@ -74,6 +74,15 @@ SegInter(a1, a2, b1, b2) ==
              ELSE IF lo = hi THEN [k |-> "point", p |-> lo]
              ELSE [k |-> "overlap", p |-> lo, q |-> hi]
 
+\* orientation-only tests (no intersection point is computed, so they are total on any lattice)
+ProperCross(e, f) == /\ Sgn(Orient(e[1], e[2], f[1])) * Sgn(Orient(e[1], e[2], f[2])) < 0
+                     /\ Sgn(Orient(f[1], f[2], e[1])) * Sgn(Orient(f[1], f[2], e[2])) < 0
+CollinearOverlap(e, f) == /\ Orient(e[1], e[2], f[1]) = 0 /\ Orient(e[1], e[2], f[2]) = 0
+                          /\ LET A == Norm(e) B == Norm(f)
+                                 lo == IF Lex(A[1], B[1]) THEN B[1] ELSE A[1]
+                                 hi == IF Lex(A[2], B[2]) THEN A[2] ELSE B[2]
+                             IN Lex(lo, hi)
+
 \* set of proper/improper single meeting points of two non-collinear segments
 XPts(e, f) == LET i == SegInter(e[1], e[2], f[1], f[2]) IN IF i.k = "point" THEN {i.p} ELSE {}
 
